@@ -28,7 +28,8 @@ ASSUMPTIONS = [
     "('only when RX Stop bit is seen'), the class has no docstring",
     "UART TX: a frame is 10 bit periods; the sink is acknowledged inside the stop bit; back-to-back start-to-start <= 10 bit periods + 2 cycles",
     "CSR accesses are spaced as Wishbone2CSR spaces them (>= 1 idle bus cycle after a write): EventManager.pending clears one cycle after the write",
-    "SPIMaster is driven through its plain command Signals (with_csr=False); its CSR wrapper (add_csr) is not exercised here",
+    "SPIMaster: classes spi_master* drive the plain command Signals (with_csr=False); class spi_master_csr drives the CSR wrapper (add_csr) "
+    "with the documented register layout, polling status.done from 4 cycles after the start write",
     "SPI MISO responder: mode-0 slave whose data becomes valid 0..(clock low time - 1) cycles after the falling edge / CS assertion and is held "
     "until the next falling edge (a master sampling earlier than the rising edge reads the complement)",
     "SPIMaster: divider >= 2 (0 and 1 cannot divide), length in 1..data_width, `length`/`cs`/`loopback` stable while busy (mosi may change: it is latched), "
@@ -63,7 +64,7 @@ FLOORS = {
               "n_spi_lengths": 20, "n_spi_start_phases": 50, "spi_slave_frames": 100, "i2c_bits": 2000, "i2c_start_stop_seen": 160,
               "i2c_bytes_written": 120, "i2c_bytes_read": 60, "timer_cycles_compared": 12000, "timer_zero_events": 1000,
               "timer_one_shots_timed": 80, "timer_value_latches": 200, "watchdog_cycles": 9000, "watchdog_timeouts": 250,
-              "watchdog_saturated_cycles": 3000, "waittimer_runs": 300, "timeline_sequences": 900, "pwm_periods": 600, "bone_commands": 1500,
+              "watchdog_saturated_cycles": 3000, "waittimer_runs": 300, "timeline_sequences": 900, "pwm_periods": 600, "bone_commands": 1500, "spi_csr_transfers": 80, "spi_csr_bits": 700,
               "bone_wishbone_cycles": 2500, "bone_read_bytes": 3500, "bone_truncated_commands": 150, "bone_unknown_commands": 200},
     "thorough": {"uart_tx_frames_decoded": 4000, "uart_rx_bytes_delivered": 4000, "uart_rx_bad_stop_frames": 200, "uart_rx_zero_gap_frames": 900,
                  "uart_full_tx_frames": 500, "uart_full_rx_bytes": 500, "n_uart_tx_tuning_words": 8, "n_uart_rx_tuning_words": 8,
@@ -71,7 +72,7 @@ FLOORS = {
                  "n_spi_lengths": 30, "n_spi_start_phases": 66, "spi_slave_frames": 800, "i2c_bits": 25000, "i2c_start_stop_seen": 2000,
                  "i2c_bytes_written": 1500, "i2c_bytes_read": 800, "timer_cycles_compared": 120000, "timer_zero_events": 8000,
                  "timer_one_shots_timed": 600, "timer_value_latches": 2000, "watchdog_cycles": 80000, "watchdog_timeouts": 2000,
-                 "watchdog_saturated_cycles": 20000, "waittimer_runs": 500, "timeline_sequences": 5000, "pwm_periods": 3000, "bone_commands": 30000,
+                 "watchdog_saturated_cycles": 20000, "waittimer_runs": 500, "timeline_sequences": 5000, "pwm_periods": 3000, "bone_commands": 30000, "spi_csr_transfers": 1500, "spi_csr_bits": 12000,
                  "bone_wishbone_cycles": 50000, "bone_read_bytes": 70000, "bone_truncated_commands": 3000, "bone_unknown_commands": 4000},
 }
 SHARD_TIMEOUT = {"quick": 600, "thorough": 3000}
@@ -85,7 +86,7 @@ for _m in MODS:
 # rough cost of one case in seconds of one core (measured), used only to balance shards
 COST = {"uart_tx": 0.35, "uart_rx": 0.45, "uart_full": 7.0, "spi_master": 0.4, "spi_master_divchange": 0.1, "spi_slave": 0.35,
         "i2c": 1.6, "i2c_overlap": 0.25, "timer": 0.55, "timer_periodic_doc": 0.1, "watchdog": 0.5, "watchdog_delay0": 0.3,
-        "waittimer": 0.15, "timeline": 0.1, "pwm": 0.06, "uartbone": 1.5}
+        "waittimer": 0.15, "timeline": 0.1, "pwm": 0.06, "uartbone": 1.5, "spi_master_csr": 0.5}
 
 
 def plan(tier, seed):
